@@ -18,7 +18,7 @@ THEOREMS = [
     "Mtv.Tlgen.emit_flag_index",
 ]
 RULE = ("operations: real tlparser.ParseSchema vs the Lean model on PRNG-generated schemas in varying layouts (enums, "
-        "single/multi-constructor types, constructor/type name clashes, every primitive, flags on bits 0..31 and shared "
+        "single/multi-constructor types, constructor/type name clashes in four spellings over one- and multi-hump type names, every primitive, flags on bits 0..31 and shared "
         "bits, vectors of every element kind, functions returning objects/Bool/vectors, namespaces, annotations and plain "
         "comments in every position, section switches, excluded definitions), every schema file of the repository, "
         "mutated texts and every prefix of some schemas (termination / no panic), the classification computed by "
